@@ -120,6 +120,7 @@ func loadTemplates(w *World) (*TplWorld, error) {
 		if err != nil {
 			return nil, err
 		}
+		tw.inlineNewPartials(eng)
 		tw.Engines[name] = eng
 		tw.Order = append(tw.Order, name)
 	}
@@ -269,21 +270,17 @@ func (tw *TplWorld) loadHelpers() error {
 		return fmt.Errorf("generator/routes.registerHandlebarsHelpers not found")
 	}
 	info := fi.Pkg.TypesInfo
-	ast.Inspect(fi.Decl, func(n ast.Node) bool {
-		c, ok := n.(*ast.CallExpr)
-		if !ok || calleeOfCall(info, c) != "github.com/aymerick/raymond.RegisterHelper" || len(c.Args) != 2 {
-			return true
-		}
-		tv := info.Types[c.Args[0]]
-		if tv.Value == nil {
-			return true
+	add := func(nameExpr, fnExpr ast.Expr, pos token.Pos) {
+		tv := info.Types[nameExpr]
+		if tv.Value == nil || info.TypeOf(fnExpr) == nil {
+			return
 		}
 		name := constString(tv.Value)
-		sig, _ := info.TypeOf(c.Args[1]).Underlying().(*types.Signature)
+		sig, _ := info.TypeOf(fnExpr).Underlying().(*types.Signature)
 		if sig == nil {
-			return true
+			return
 		}
-		h := &HelperInfo{Name: name, NumIn: sig.Params().Len(), Pos: w.pos(c.Pos())}
+		h := &HelperInfo{Name: name, NumIn: sig.Params().Len(), Pos: w.pos(pos)}
 		for i := 0; i < sig.Params().Len(); i++ {
 			ts := types.TypeString(sig.Params().At(i).Type(), nil)
 			h.ParamTypes = append(h.ParamTypes, short(ts))
@@ -292,6 +289,29 @@ func (tw *TplWorld) loadHelpers() error {
 			}
 		}
 		tw.Helpers[name] = h
+	}
+	w.inspectRegion(fi, func(n ast.Node) bool {
+		c, ok := n.(*ast.CallExpr)
+		if !ok {
+			return true
+		}
+		switch calleeOfCall(info, c) {
+		case "github.com/aymerick/raymond.RegisterHelper":
+			if len(c.Args) == 2 {
+				add(c.Args[0], c.Args[1], c.Pos())
+			}
+		case "github.com/aymerick/raymond.RegisterHelpers":
+			// the bulk form: a map literal name -> function
+			if len(c.Args) == 1 {
+				if cl, ok := ast.Unparen(c.Args[0]).(*ast.CompositeLit); ok {
+					for _, el := range cl.Elts {
+						if kv, ok := el.(*ast.KeyValueExpr); ok {
+							add(kv.Key, kv.Value, kv.Pos())
+						}
+					}
+				}
+			}
+		}
 		return true
 	})
 	if len(tw.Helpers) < 10 {
@@ -958,5 +978,58 @@ func canonBlocks(p *hast.Program) {
 		}
 		canonBlocks(b.Program)
 		canonBlocks(b.Inverse)
+	}
+}
+
+// inlineNewPartials: a partial under a name the reviewed templates did not have is a fragment
+// that was moved out of a reviewed template (or out of routes.hbs). A plain invocation
+// `{{> Name}}` (no context argument, no hash) renders the fragment in the invoking context, so
+// the rules read the fragment where it is invoked - as for new Go functions. The new partial
+// then is no template of its own any more.
+func (tw *TplWorld) inlineNewPartials(eng *TplEngine) {
+	w := tw.W
+	if !w.base.loaded || len(w.base.partials) < 10 {
+		return
+	}
+	isNew := func(name string) bool { return name != "" && !w.base.partials[name] && eng.Partials[name] != nil }
+	var inlineProg func(p *hast.Program, depth int)
+	inlineProg = func(p *hast.Program, depth int) {
+		if p == nil || depth > 6 {
+			return
+		}
+		var out []hast.Node
+		for _, st := range p.Body {
+			switch n := st.(type) {
+			case *hast.PartialStatement:
+				if nm := partialName(n); isNew(nm) && len(n.Params) == 0 && n.Hash == nil {
+					sub := eng.Partials[nm].Prog
+					inlineProg(sub, depth+1)
+					out = append(out, sub.Body...)
+					tw.stats["new_partials_inlined"]++
+					continue
+				}
+			case *hast.BlockStatement:
+				inlineProg(n.Program, depth)
+				inlineProg(n.Inverse, depth)
+			}
+			out = append(out, st)
+		}
+		p.Body = out
+	}
+	inlineProg(eng.Routes.Prog, 0)
+	names := make([]string, 0, len(eng.Partials))
+	for nm := range eng.Partials {
+		names = append(names, nm)
+	}
+	sort.Strings(names)
+	for _, nm := range names {
+		if !isNew(nm) {
+			inlineProg(eng.Partials[nm].Prog, 0)
+		}
+	}
+	for _, nm := range names {
+		if isNew(nm) {
+			delete(eng.Partials, nm)
+		}
 	}
 }
